@@ -121,12 +121,13 @@ def tasks(tier):
     a3 = CTRL3[:4] if q else CTRL3
     a2 = CTRL2[:3] if q else CTRL2
     for alpha in (a3, a2):
-        for deg in (1, 2, 3):
+        for deg in (0, 1, 2, 3):          # degree 0 = a single control point (a constant curve, still a curve)
             polys = [list(p) for p in itertools.product(alpha, repeat=deg + 1)]
             for ch in _chunks(polys, 40):
                 out.append({"kind": "curve", "polygons": ch})
     # Bezier patches
-    sizes = {(2, 2): 3 if q else 4, (2, 3): 2 if q else 3, (3, 2): 2 if q else 3, (3, 3): 2}
+    sizes = {(1, 1): 3, (1, 2): 3, (2, 1): 3, (1, 3): 2, (3, 1): 2,      # degenerate nets: a point, a curve in one direction
+             (2, 2): 3 if q else 4, (2, 3): 2 if q else 3, (3, 2): 2 if q else 3, (3, 3): 2}
     for (m, n), k in sizes.items():
         alpha = CTRL3[:k]
         nets = []
@@ -623,7 +624,13 @@ def _run_curves(task, ctx: Ctx):
         eval_bad = False
         scale = max(1.0, max(abs(x) for p in poly for x in p))
         Pq = [tuple(Fr(x) for x in p) for p in poly]
-        o = call(M.splines.BezierCurve, [tuple(float(x) for x in p) for p in poly])
+        # control points are handed over as float tuples or, every other polygon, as integer tuples (the lattice
+        # alphabet is integral): the value must not depend on the number type of the control points
+        as_int = ip % 2 == 1 and all(float(x).is_integer() for p in poly for x in p)
+        if as_int:
+            icls += ":int_control_points"
+            rep.flag("curve:int_control_points")
+        o = call(M.splines.BezierCurve, [tuple((int(x) if as_int else float(x)) for x in p) for p in poly])
         rep.traces += 1
         rep.states += 1
         if not o.ok:
@@ -728,15 +735,18 @@ def _run_patches(task, ctx: Ctx):
     import numpy as np
     import mouette as M
     rep = ctx.rep
-    for net in task["nets"]:
+    for inet, net in enumerate(task["nets"]):
         m, n = len(net), len(net[0])
         rep.flag(f"patch:net{m}x{n}")
         icls = "rows==cols" if m == n else "rows!=cols"      # coarse class (the net is in the detail)
+        as_int = inet % 2 == 1 and all(float(x).is_integer() for row in net for p in row for x in p)
+        if as_int:
+            icls += ":int_control_points"
         eval_bad = [False]
         flat = [p for row in net for p in row]
         scale = max(1.0, max(abs(x) for p in flat for x in p))
         Pq = [[tuple(Fr(x) for x in p) for p in row] for row in net]
-        o = call(M.splines.BezierPatch, [[tuple(float(x) for x in p) for p in row] for row in net])
+        o = call(M.splines.BezierPatch, [[tuple((int(x) if as_int else float(x)) for x in p) for p in row] for row in net])
         rep.traces += 1
         rep.states += 1
         if not o.ok:
@@ -992,7 +1002,7 @@ def finish(tier, rep: Report):
             "as_surface:n1==n2", "as_surface:n1<n2", "as_surface:n1>n2",
             "custom_pos:len(custom_pos)<=100", "custom_pos:len(custom_pos)>100(default n_pts)", "reject:nan"]
     need += [f"aabb:{m}:dim{d}" for m in ("grid", "uniform") for d in (1, 2, 3, 4)]
-    need += [f"curve:degree{d}:{k}d" for d in (1, 2, 3) for k in (2, 3)]
+    need += [f"curve:degree{d}:{k}d" for d in (0, 1, 2, 3) for k in (2, 3)] + ["curve:int_control_points"]
     need += [f"patch:net{m}x{n}" for m in (2, 3) for n in (2, 3)]
     need += [f"surface:pc={a}:normals={b}" for a in (False, True) for b in (False, True)]
     for f in need:
